@@ -6,46 +6,46 @@ import os
 HERE = os.path.dirname(os.path.dirname(os.path.abspath(__file__)))
 
 P = {
- "C01": ("storage-table agreement (CREATE TABLE/_INSERT/_SELECT/_UPDATE/astuple/Feature.__init__), one insert per parsed item on all CFG paths, symmetric order-preserving JSON codec, dialect plumbing iterator->meta->FeatureDB->_feature_returner (who-constructs), column constants of feature_from_line/__unicode__",
-         "byte-identity of printed lines, iteration order without ORDER BY (SQLite scan order), re-import equivalence",
-         "writer/reader table agreement + CFG must-pass-through + who-constructs rule", "3 C01"),
- "C02": ("level-1 relation rows by value provenance (parent column <- each value of the feature's whole Parent attribute, child <- the feature's final id, level 1, OR IGNORE, unconditional) through helpers and temporaries; every pass of the line loop that stored the feature passes the relation writer or a Parent-absence edge (CFG must-pass), id final before the writer; level-2 closure = composition of two level-1 edges (conjunctive-query comparison) driven by every feature id; closure file writer/reader agreement by provenance; closure after population; children/parents = exact join with DISTINCT and correct binding in every partition",
-         "'never its own relative' and behaviour under every permutation of lines (data-dependent)",
-         "interprocedural value provenance (reaching definitions + caller substitution) + CFG must-pass-through + conjunctive-query normal form comparison + partitioned dataflow over query builders", "3 C02; 9.7"),
- "C03": ("the three per-line relation tuples (reaching definitions), pair query as a conjunctive query, every field of the derived-feature record traced by provenance to the column of the extent query it comes from (MIN(start)/MAX(end)/strand/seqid of one row, id of the pair row, bin of its own extent, id under the configured key), writer/reader agreement of the derived-feature file, writes reachable exactly when the disable_infer_* flag is off (path conditions, three-valued over the four flag valuations), derived collisions use 'merge', format routing as a decision table by abstract evaluation of create_db/update over force x fmt x id_spec, guard excluding parent == child",
-         "numeric extents for concrete files (aggregates computed by SQLite)",
-         "value provenance + conjunctive-query comparison + path-condition evaluation + abstract evaluation (partitioned dataflow) of the routing functions", "3 C03; 9.7"),
- "C04": ("id derivation as a decision table: _id_handler evaluated abstractly for 22 id_spec/feature scenarios (string, ':field:', list with fall-through, dict by featuretype, callable truthy/None/empty/'autoincrement:<base>', multi-valued attribute rejected in every form, per-base counters); counter routine evaluated for start states; merge()'s id generator by provenance (<base>_<counters[base]> after an increment); PRIMARY KEY(id) + plain INSERT; db[key] evaluated for string/Feature key x absent/present row (exact look-up on the id, FeatureNotFoundError); default id_spec per format",
+ "C01": ("storage-table agreement of CREATE TABLE/_INSERT/_SELECT/_UPDATE; both importers' create() evaluated against a model database: every line becomes exactly one row, in file order, holding its nine fields, attributes/extra as JSON and the bin of its coordinates; db[id] returns a Feature with the line's fields; replace and FeatureDB._update store the new content under the id; the file's dialect survives create -> reopen and reaches every Feature handed out; JSON layer evaluated (key order, raw lists of an Attributes mapping under both always_return_list settings, re-wrap on decode, no aliasing between two decodings); printer/parser template round trip; column handling of feature_from_line (strict and blank-separated) and __unicode__",
+         "byte-identity of printed lines for arbitrary values, iteration order without ORDER BY (SQLite scan order), re-import equivalence beyond the scenarios",
+         "abstract evaluation of the importer / query code against a model database (own relational evaluator for the SQL subset used, in-memory file system, temp-file service; gffutils and sqlite3 never imported or run) on scenario files compared with the statement's reference model + static string analysis (template round trip) + parsed SQL table agreement", "3 C01; 9.8"),
+ "C02": ("the GFF3 importer evaluated against a model database on a 9-line annotation graph (depth 4, shared child, repeated and dangling Parent values, a line without ID) in several line orders (all 720 orders of six lines in the thorough tier) and for a second import into the filled database: the relations table equals the Parent graph two levels deep, once each, no phantom feature; create() and FeatureDB.update() evaluated end to end (closure after population, children-first files); children/parents = exact join with DISTINCT and correct binding in every partition of the query builder",
+         "'never its own relative' for cyclic input and 'for every graph' (scenario family only)",
+         "abstract evaluation of the importer / query code against a model database (own relational evaluator for the SQL subset used, in-memory file system, temp-file service; gffutils and sqlite3 never imported or run) compared with a reference model of the Parent graph + conjunctive-query normal-form comparison of the generated children()/parents() statements", "3 C02; 9.8"),
+ "C03": ("the GTF importer's create() evaluated against a model database (pair query with sub-select, MIN/MAX extent queries, intermediate file written and read back, derived features merged): two genes on two chromosomes with interleaved lines, an exon ending beyond the last-starting one, a transcript without exons, all four disable_infer_* combinations, shuffled orders, explicit gene/transcript lines (kept with their own coordinates and attributes), custom keys and subfeature, an id shared by a gene and an exon-less transcript: relations, derived features (type, seqid, extent, strand, bin, id attribute) and self-relations compared with a reference model; format routing as a decision table by abstract evaluation of create_db/update over force x fmt x id_spec",
+         "'for every GTF file' (scenario family only)",
+         "abstract evaluation of the importer / query code against a model database (own relational evaluator for the SQL subset used, in-memory file system, temp-file service; gffutils and sqlite3 never imported or run) compared with a reference model of the statement + abstract evaluation of the routing functions", "3 C03; 9.8"),
+ "C04": ("id derivation as a decision table: _id_handler evaluated abstractly for 22 id_spec/feature scenarios (string, ':field:', list with fall-through, dict by featuretype, callable truthy/None/empty/'autoincrement:<base>', multi-valued attribute rejected in every form, per-base counters); counter routine evaluated for start states; merge()'s id generator by provenance (<base>_<counters[base]> after an increment); PRIMARY KEY(id) + plain INSERT; db[key] evaluated on a created model database for string and Feature keys: stored keys (incl. 'e2', 'e2x', 'E2') return exactly their feature, absent ones raise FeatureNotFoundError; default id_spec per format",
          "numbering 'in input order' separately (follows from C01.R2 + R4); id_spec forms outside the scenario table",
          "abstract evaluation (partitioned dataflow interpreter over the source, never executed) on a scenario table + value provenance + parsed SQL", "3 C04; 9.7"),
- "C05": ("dispatcher decision table by abstract evaluation of _do_merge over 30 scenarios (five strategies, unknown rejected, each fixed column differing with and without force_merge_fields, overlapping attribute sets, several candidates, a stored forced column that is already a joined set, the no-candidate path with its duplicates row); one pass of each importer's line loop evaluated per strategy with the statements it executes and their bound values (GFF and GTF tables equal; discarded newcomers write no relations, kept ones all of theirs under the final id); candidate query as conjunctive query; constructor rejects start/end; (known finding) relations of a replaced row",
+ "C05": ("dispatcher decision table by abstract evaluation of _do_merge over 30 scenarios; each importer's line loop evaluated against a model database (real key collisions raise IntegrityError) under every strategy: error aborts, warning keeps the first and writes none of the newcomer's links, replace keeps the last, create_unique keeps three arrivals under K, K_1, K_2, merge unions attribute values and links under the key, forced columns become the comma-joined set (also for an attribute-identical newcomer), a differing column files the newcomer under K_1 with its duplicates row, a third arrival agreeing with K_1 is merged into K_1; candidate query as conjunctive query; constructor rejects start/end; (known finding) relations of a replaced row",
          "the outcome for every interleaving of collisions beyond the scenarios (history-dependent data)",
-         "abstract evaluation (partitioned dataflow interpreter, callee summaries) into decision tables + sibling cross-check + conjunctive-query comparison", "3 C05; 9.7"),
+         "abstract evaluation (partitioned dataflow interpreter) into decision tables + abstract evaluation of the importer / query code against a model database (own relational evaluator for the SQL subset used, in-memory file system, temp-file service; gffutils and sqlite3 never imported or run) + conjunctive-query comparison", "3 C05; 9.8"),
  "C06": ("coordinate predicate of every generated statement equivalent to the specification (both bounds) or inside the sandwich (one bound) under all orderings, bin pre-filter only outside bins()'s fallback domain, stored bin recomputed from the same feature's (start,end), exactly the restrictions asked for (strand is the caller's)",
          "results for concrete feature sets",
          "partitioned dataflow (static string analysis) over make_query/region + order-predicate decision on a complete grid", "3 C06"),
- "C07": ("dialect keys written by inference are read by reconstruction and declared; separators longest-first; printing never mutates the shared dialect; _reconstruct evaluated for a symbolic mapping under 212 dialect configurations and compared token by token with the template the dialect denotes; that template fed back to _split_keyvals (dialect supplied and inferred, also with blanks and '=' inside quoted values): the mapping comes back and inference reports the dialect it was written in; decode layer per value, never re-split, after the format is final; column handling of feature_from_line/__unicode__",
+ "C07": ("dialect keys written by inference are read by reconstruction and declared; printing never mutates the shared dialect; _reconstruct evaluated for a symbolic mapping under 212 dialect configurations and compared token by token with the template the dialect denotes; that template fed back to _split_keyvals (dialect supplied and inferred, also with blanks and '=' inside quoted values, with literally escaped structural characters in values, escapes honoured and ignored): the mapping comes back -- escaped values as one decoded value exactly in gff3 dialects -- and inference reports the dialect it was written in; keys not listed by the dialect keep mapping order; column handling of feature_from_line/__unicode__",
          "byte-for-byte identity for arbitrary values (escapes and structural characters inside values beyond the templates), strict=False equality",
          "static string analysis (strings with holes, partitioned dataflow) of printer and parser: template round trip; set comparison of def/use keys", "3 C07; 9.7"),
- "C08": ("effective encode set (the constant the encoder tests membership in) covers the reserved characters and excludes blank/quote; encoder evaluated on a symbolic character: %XX upper-case exactly for members, identity otherwise, cache consistent; encode condition == decode condition; printer/parser template round trip; every constant-index subscript and fixed-arity unpack of the attribute parser and of feature_from_line covered by the abstract sequence length of its base (or an enclosing handler), mapping reads by named justification; no while/recursion; values are lists",
+ "C08": ("effective encode set (the constant the encoder tests membership in) covers the reserved characters and excludes blank/quote; encoder evaluated on a symbolic character: %XX upper-case exactly for members, identity otherwise, cached results independent of the run-time switch; encode/decode conditions decided by the printer template and the round trip with literal escapes under both switch settings; every string up to a length bound over the structural alphabet parses to (mapping of lists of strings, dialect) without raising; every constant-index subscript and fixed-arity unpack of the attribute parser and of feature_from_line covered by the abstract sequence length of its base (or an enclosing handler), mapping reads by named justification; no while/recursion",
          "that a printed feature re-parses to the same mapping for arbitrary values (string semantics)",
          "sequence-length abstract interpretation on the CFG (edge refinement, calling-context helper analysis) + abstract evaluation of the encoder + template round trip", "3 C08; 9.7"),
- "C09": ("the vote evaluated abstractly on small peeks (weight = number of attributes, per-key accumulation, ties to the first-seen value also when another value led in between, key order rebuilt first-seen, empty peek -> default); iterator constructor over dialect given/None x force_dialect_check (peek only without a dialect, supplied dialect verbatim, vote over the peek); every yielded feature carries the iterator's dialect, attached before the transform; create_db hands the caller's or the iterator's dialect to the importer; the three entry points reach the one inference function; inference decisions by template round trip (inferred dialect == written dialect); key pattern == \\w+= on a separating corpus; parser never writes into the shared default; format routing",
+ "C09": ("the vote evaluated abstractly on small peeks (weight = number of attributes, per-key accumulation, ties to the first-seen value also when another value led in between, key order rebuilt first-seen, empty peek -> default); iterator constructor over dialect given/None x force_dialect_check (peek only without a dialect, supplied dialect verbatim, vote over the peek); every iterator class's peek(n) inspects the same number of items on streams and lists (sibling agreement); every yielded feature carries the iterator's dialect, attached before the transform; create_db hands the caller's or the iterator's dialect to the importer; the three entry points reach the one inference function; inference decisions by template round trip (inferred dialect == written dialect); key pattern == \\w+= on a separating corpus; parser never writes into the shared default; format routing",
          "that the full dictionary is recovered for every consistent input beyond the templates",
          "abstract evaluation (partitioned dataflow interpreter) on scenarios + template round trip + call-graph reachability + value provenance", "3 C09; 9.7"),
- "C10": ("update/delete evaluated abstractly for make_backup x (database is a file / a connection): exactly one copy dbfn -> dbfn.bak iff both hold (also with further keyword arguments), before any event that can write; delete executes per element one DELETE on features by id and one on relations by parent-or-child, bound to the element's id (Feature -> its id), nothing else, committed; update hands the live counter object, dbfn, dialect and the built iterator to the importer, runs populate -> relations -> finalize, returns before any write when the source is empty; importer keeps the given counter object (no copy, also when empty); counters written back OR REPLACE and reloaded; level-2 closure (shared with C02.R2); add_relation row for Feature and id arguments",
-         "equality with a reference model after every history",
-         "abstract evaluation (partitioned dataflow interpreter) into event traces + effect closure over the resolved call graph + value provenance", "3 C10; 9.7"),
+ "C10": ("a history create -> update (three lines, one unnamed) -> empty update -> add_relation (ids, Features) -> delete (id, Feature, list) -> update evaluated step by step against a model database and compared after every step with a reference model of features and relations; counters continue across updates, are stored and live, never recycle; backup copy exactly when make_backup and the database is a file, before any write; delete's statements per element; update hands the live counter object, dbfn, dialect and iterator to the importer and returns before any write when the source is empty; importer keeps the given counter object; counters written back OR REPLACE and reloaded; relations after a first and a second import (shared with C02)",
+         "equality with the reference model for every history beyond the evaluated one; the '.bak' content after a failure part-way",
+         "abstract evaluation of the importer / query code against a model database (own relational evaluator for the SQL subset used, in-memory file system, temp-file service; gffutils and sqlite3 never imported or run) along a history, compared with a reference model + abstract evaluation into event traces + effect closure over the resolved call graph", "3 C10; 9.8"),
  "C11": ("placeholders and arguments in lock-step in every partition of make_query's configuration space (exhaustive), filters bound to the requested values, order_by validated/translated alike in str and iterable form, ASC/DESC, count/distinct listings on the right column, exactly one WHERE (parse)",
          "sort results on concrete data (SQLite's sorter, collation, ties)",
          "partitioned dataflow (static string analysis) + SQL parsing of every generated statement", "3 C11"),
- "C12": ("constants = 5-level UCSC scheme, one=True returns an int on every reachable path for every coordinate pair (interval abstract interpretation), fallback domain == out-of-range domain on all threshold cells, per-level formulas equal the scheme (shift normal forms)",
-         "tightness ('no coarser than'); soundness of overlap is argued in specs/bins_proof.md from the checked premises",
-         "interval + shift-normal-form abstract interpretation with the level loop unrolled", "3 C12"),
- "C13": ("DataIterator dispatch table by abstract evaluation over every iterator class instance, string with from_string, string x exists x is_url, FeatureDB, iterable, generator (all wrapped with the same checklines/transform/dialect); peek evaluated on a one-shot stream and on a list (returns a prefix; afterwards the source still yields every item in order) for n = 0, 2, 10; file peek reads a fresh pass; transform applied once per item at one site, result replaces the item, falsy result skips; create_db hands the peeked iterator with checklines=0 to the importer; inspect counts each feature once, stops at the limit, counters by value/keys",
+ "C12": ("bins.bins evaluated on a threshold grid (every place where some level's bin changes, both start conventions, range limits, stops straddling each level's next boundary; all pairs in the thorough tier) and compared with the scheme of the statement: result type per mode, fallback domain, single bin, bin set; when the code is within the shift-form subset the same obligations for every integer pair (interval + shift-normal-form abstract interpretation); constants = 5-level scheme; Feature.astuple() evaluated with a stale carried bin (the stored bin is bins(start, end), recomputed); every other single-bin computation pairs start and end of one record (value provenance, else evaluation)",
+         "tightness ('no coarser than') beyond the grid when the for-all interpretation does not apply; soundness of overlap is argued in specs/bins_proof.md from the checked premises",
+         "evaluation of the source on a complete threshold grid against an independent specification + interval/shift-normal-form abstract interpretation (when applicable) + value provenance", "3 C12; 9.8"),
+ "C13": ("DataIterator dispatch table by abstract evaluation over every iterator class instance, string with from_string, string x exists x is_url, FeatureDB, iterable, generator (all wrapped with the same checklines/transform/dialect); peek evaluated on a one-shot generator, a one-shot iterator that is not a generator and a list (returns a prefix; afterwards the source still yields every item in order) for n = 0, 2, 10; file peek reads a fresh pass; transform applied only on the common iteration path and exactly once per item on the whole path of every iterator class, result replaces the item, falsy result skips; create_db hands the peeked iterator with checklines=0 to the importer; inspect counts each feature once, stops at the limit, counters by value/keys",
          "equality of databases over all seven forms and all checklines",
          "abstract evaluation (partitioned dataflow interpreter with one-shot stream values) on scenarios", "3 C13; 9.7"),
- "C14": ("line classification table: one pass of the file iterator evaluated per class of line followed by a sentinel (##FASTA and '>' stop, ## directive, # and empty skipped, others features incl. leading blank); terminators stripped before classification; directives stored without the leading ## in file order with repeats; iteration clears and refills the captured directive list in place (object identity), create_db hands that object to the importer, the importer keeps it, _finalize writes one row per directive in list order; read-back in row order",
+ "C14": ("line classification table: one pass of the file iterator evaluated per class of line followed by a sentinel (##FASTA and '>' stop, ## directive, # and empty skipped, others features incl. leading blank); terminators stripped before classification; directives stored without the leading ## in file order with repeats; iteration clears and refills the captured directive list in place (object identity), create_db hands that object to the importer, the importer keeps it; the directives seen are in place however the pass ends (##FASTA, '>' header, end of file); create() then FeatureDB(dbfn) evaluated on a model database: one row per directive in list order, read back in row order",
          "behaviour over all interleavings of concrete files (follows from the table and the identity rule)",
          "abstract evaluation (partitioned dataflow interpreter over a stream of representative lines) + object-identity tracking + parsed SQL + value provenance", "3 C14; 9.7"),
  "C15": ("interfeatures evaluated abstractly on neighbours 2/1/0/-1 bases apart and nested (gap = previous.end+1..next.start-1, suppressed iff start > end), three-feature lists, seqid changes (also right after a gap), strand pairs and triples, automatic/given type, attribute union through merge_attributes with numeric_sort, update_attributes, attribute_func, ID join, bin recomputed, inputs unchanged; splice sites per strand (two-base sites, labels) and introns; children queried at level 1 by type ordered by start",
@@ -54,18 +54,18 @@ P = {
  "C16": ("merge() evaluated abstractly on start-ordered lists (overlap, adjacency, one base apart, other seqid/strand/type, two runs and a single, nested member, mixed columns under custom criteria): partition of the inputs, min/max extents, fresh ids and counters, criteria called with (run so far, feature, components) and conjoined, inputs unchanged and head copied, constructor keywords within Feature.__init__ parameters, children attached, merged outputs re-mergeable, same objects same result; every shipped criterion and threshold factory evaluated on a grid complete for difference constraints == specification, reflexive, monotone; merge_all (one stored feature per multi-member run, level-1 relations or deletion, criteria forwarded) and children_bp (sum of lengths, union with merge=True)",
          "extents = interval union for every multiset beyond the scenarios",
          "abstract evaluation (partitioned dataflow interpreter) on threshold scenarios + difference-constraint grid decision", "3 C16; 9.7"),
- "C17": ("the container's own methods evaluated abstractly: scalars wrapped in a one-item list, lists/tuples stored as they are, update()/construction/feature[key]=value route through the wrap, nobody else writes the raw mapping; view with always_return_list on/off for one-item/two-item/tuple/empty values never changes what is stored; switch read only in the view, saved/restored by bed12; symmetric JSON codec; merge_attributes on two mappings: sorted duplicate-free union, numeric order keeping different spellings, arguments untouched, nothing shared; __eq__/__ne__/__hash__/__str__ as functions of the printed line",
+ "C17": ("the container's own methods evaluated abstractly: scalars wrapped in a one-item list, lists/tuples stored as they are, update()/construction/feature[key]=value route through the wrap, nobody else writes the raw mapping; view with always_return_list on/off for one-item/two-item/tuple/empty values never changes what is stored; switch read only in the view (and what it calls) and in bed12's call closure, which is evaluated to leave the switch as found; symmetric JSON codec; merge_attributes on two mappings: sorted duplicate-free union, numeric order keeping different spellings, arguments untouched, nothing shared; __eq__/__ne__/__hash__/__str__ as functions of the printed line",
          "JSON identity for arbitrary Unicode (simplejson's behaviour)",
          "abstract evaluation (partitioned dataflow interpreter, dispatch to the package classes' own methods) + who-writes / who-reads rules", "3 C17; 9.7"),
  "C18": ("len = end - start + 1 and the stop/chrom aliases; sequence = FASTA[chrom][start-1:end], reverse-complemented iff use_strand and minus strand (six strand x flag cases); the twelve BED12 fields for a feature with exons and CDS (chromStart = start-1, thick bounds from thick or thin features, block sizes/starts/count, name/score/strand/rgb), no-thick and no-block cases, children queried ascending by start, always_return_list restored; ValueError when the first/last block does not span the feature; to_bed12; an id argument is looked up before it is used as a Feature in bed12/children_bp/to_bed12 (also without block children) and gives the same result as the Feature",
          "string contents of sequences (pyfaidx)",
          "abstract evaluation (partitioned dataflow interpreter with a summarised database) on concrete-coordinate scenarios", "3 C18; 9.7"),
- "C19": ("every CREATE TABLE unconditional and creation dominates population; the creator constructor evaluated for force x (path / open connection) x (file exists or not) with all other options symbolic: the target is removed only under force, once, before connecting, and nothing else is; transitive effect set of every read-style method contains SELECT only (SQL assembled at run time resolved by abstract evaluation), built statements are SELECTs in every partition",
+ "C19": ("every CREATE TABLE unconditional; create() evaluated on an empty model database (tables, then rows) and over a database that already has the tables (raises, old rows kept); the creator constructor evaluated for force x (path / open connection) x (file exists or not) with all other options symbolic: the target is removed only under force, once, before connecting, and nothing else is; transitive effect set of every read-style method contains SELECT only (SQL assembled at run time resolved by abstract evaluation), built statements are SELECTs in every partition",
          "byte content of the file after a failed call (SQLite's behaviour for PRAGMAs and a failed script)",
          "effect closure over the resolved call graph (class-hierarchy analysis) + abstract evaluation of the constructor + parsed schema", "3 C19; 9.7"),
- "C20": ("the routines that create temp files (_update_relations of both importers, DataIterator(from_string)) evaluated abstractly with symbolic verbose, empty-loop forks and _keep_tempfiles False/True/str: temp files named by tempfile only (no dir/prefix), only tempfile-derived paths opened for writing, each delete=False file unlinked on every returning path after the last write (unless kept) or handed to a finalizer that unlinks its argument, removed when construction fails; every write-open effect of the import closure is one of those; no module-level store and no foreign file effect in the import closure",
-         "identical results under every schedule / process count / start offset: separate processes share no in-process state to analyse, and OS/SQLite locking is outside the source (declared not decidable by this technique)",
-         "abstract evaluation (partitioned dataflow interpreter) into event traces + effect footprint of the import call graph", "3 C20; 9.7"),
+ "C20": ("both importers' create() evaluated against a model database with an in-memory file system and a temp-file service handing out one fresh name per request (_keep_tempfiles False/True/str, verbose off/on/debug, nothing to infer, no relations at all): every file written is one of the import's own tempfile-named files (no dir/prefix override), and when create() returns no intermediate file is left unless kept, after it was read back; DataIterator(from_string) temp file handed to a finalizer that unlinks its argument, removed when construction fails; every write-open effect of the import closure is one of those; no module-level store and no foreign file effect in the import closure",
+         "identical results under every schedule (separate processes share no in-process state; OS/SQLite locking is outside the source)",
+         "abstract evaluation of the importer / query code against a model database (own relational evaluator for the SQL subset used, in-memory file system, temp-file service; gffutils and sqlite3 never imported or run) + abstract evaluation into event traces + effect closure over the resolved call graph", "3 C20; 9.8"),
 }
 
 checks = []
